@@ -428,8 +428,22 @@ impl World {
             recent_touch: vec![],
             initial_fails: vec![],
         };
-        if let Some(d) = oracle::compare(&w.last, &w.model.expect_all()) {
-            return Err(format!("setup: model built from the parse disagrees with it: {}", d));
+        // reading is side-effect free and repeatable (C19): a second observation of the untouched documents
+        // equals the first.  (Checked before the model is compared with the parse: an enumeration whose order
+        // changes from call to call would otherwise only show as a document the harness cannot mirror.)
+        let mut unstable = false;
+        for _ in 0..2 {
+            let (again, _) = w.real.observe(w.cfg.limit);
+            if let Some(d) = oracle::first_diff(&w.last, &again).or_else(|| oracle::first_diff(&again, &w.last)) {
+                initial_fails.push(Fail::new("C19", "read-unstable", format!("two observations of the freshly parsed, untouched documents differ: {}", d)));
+                unstable = true;
+                break;
+            }
+        }
+        if !unstable {
+            if let Some(d) = oracle::compare(&w.last, &w.model.expect_all()) {
+                return Err(format!("setup: model built from the parse disagrees with it: {}", d));
+            }
         }
         initial_fails.extend(oracle::check_tree(&w.last));
         if initial_fails.iter().all(|f| GATED_CLAUSES.contains(&f.clause)) {
@@ -1552,6 +1566,23 @@ impl World {
                 if let Ret::Str(g) = ret {
                     if *g != want {
                         fails.push(Fail::new("C16", "substring", format!("substring_data({},{}) of {:?} is {:?}, DOM Level 1 says {:?}", off, cnt, d, g, want)));
+                    }
+                }
+                // length() of the same handle counts the characters of data(), merged text nodes included
+                if let Some((rn, _)) = self.real.node(*node) {
+                    let got = guarded(|| match &rn {
+                        XmlNode::Text(t) => Some(t.length()),
+                        XmlNode::Comment(t) => Some(t.length()),
+                        XmlNode::CData(t) => Some(t.length()),
+                        XmlNode::ExpandedText(t) => Some(t.length()),
+                        _ => None,
+                    });
+                    match got {
+                        Ok(Some(l)) if l != len => {
+                            fails.push(Fail::new("C16", "length", format!("length() is {} but data {:?} has {} characters", l, d, len)));
+                        }
+                        Err(p) => fails.push(Fail::new("C16", "panic", format!("length() panicked: {}", p))),
+                        _ => {}
                     }
                 }
             }
